@@ -2,5 +2,6 @@ SPECIFICATION Spec
 CONSTANTS
   Mrp = {m1, m2}
   Atomic = FALSE
+  InspectorLoadsLock = FALSE
   InspectorCleansUp = FALSE
 INVARIANTS OneWriter
